@@ -73,7 +73,9 @@ class Session:
         if op_kind == "step" and (outcome == "ok" or stepped):
             reinit |= set(refs)
         if op_kind == "step" and outcome == "ok":
-            stepped |= {r for r in refs if "states" in dyn.var_layout(self.U.spec_of(r))}
+            # Network.step advances origins and links; a destination with a state (caller-defined) is
+            # initialised by it but stepped only by the caller -- or by observation, above
+            stepped |= {r for r in refs if r[0] in "lo" and "states" in dyn.var_layout(self.U.spec_of(r))}
         for r in reinit:
             self.inited_since[r] = True
         for r in stepped:
@@ -277,6 +279,10 @@ class Session:
         if T_sym is not None:
             if op.get("give_params", True):
                 kw["parameters"] = {"T": T_sym}
+            elif op.get("T_by_keyword"):
+                # the symbolic T of the step handed over like a number, not declared as a parameter:
+                # whatever is returned must still have no free symbol (CasADi refuses on the pinned tree)
+                kw["T"] = T_sym
             else:
                 kw["more_out"] = False  # the flow outputs need T: omitting it there is a caller error
         else:
@@ -292,9 +298,13 @@ class Session:
         except RuntimeError as e:
             if reasons:
                 p["compile_raised_expected:" + reasons[0][0]] += 1
+                if reasons[0][1][0] == "d" and reasons[0][0] != "uninitialised":
+                    p["compile_raised_expected:stateful-destination-not-stepped"] += 1
                 self.res.nontrivial = True
                 return "raised-expected"
             p["compile_raised_but_ready" + (":clean" if self.clean is not None else "")] += 1
+            if self.T_sym is not None and "T" in self.compile_kwargs(op, self.T_sym):
+                p["compile_refused:symbolic-T-by-keyword-undeclared"] += 1
             return "raised-ready"
         except Exception as e:
             if reasons and self.torn:
@@ -322,6 +332,8 @@ class Session:
         self.check_inputs(F, where)
         self.check_outputs(F, op, where)
         p["compile_returned"] += 1
+        if any(self.U.spec_of(r)["cls"] == "CountingDestination" for r in self.in_net()[0]):
+            p["compile_returned:with-caller-stepped-stateful-destination"] += 1
         self.res.nontrivial = True
         if op.get("recompile", True):
             # "reflects the most recent step": a second compiler -- a never-used engine object of the
@@ -522,6 +534,11 @@ def generate(prop: str, run_seed: int, tier: str = "quick") -> dict:
     U = dyn.gen_dyn_universe(rng, ideal_origins=rng.random() < 0.25, big=True)
     U["origins"] += [dyn.gen_origin_spec(rng, f"O{len(U['origins']) + i}", dyn.STEPPABLE_ORIGIN_KINDS) for i in range(2)]
     U["dests"] += [dyn.gen_dest_spec(rng, f"D{len(U['dests']) + i}") for i in range(2)]
+    if rng.random() < 0.15:
+        # caller-defined destinations with a state of their own (Network.step never steps them)
+        for sp in U["dests"]:
+            if rng.random() < 0.6:
+                sp["cls"] = "CountingDestination"
     if rng.random() < 0.3:
         # colliding names, within and across element kinds (names need not be unique)
         pool = ["A", "B", "C", "D"][: rng.randint(1, 4)]
@@ -550,7 +567,7 @@ def generate(prop: str, run_seed: int, tier: str = "quick") -> dict:
 
     def compile_op():
         return {"op": "compile", "compact": rng.choice([0, 1, 1, 2]), "more_out": rng.random() < 0.3, "T": T,
-                "pt": rng.getrandbits(16), "give_params": rng.random() < 0.85, "recompile": rng.random() < 0.6}
+                "pt": rng.getrandbits(16), "give_params": rng.random() < 0.8, "T_by_keyword": rng.random() < 0.6, "recompile": rng.random() < 0.6}
 
     def step_op(allow_fault=True):
         op = {"op": "step", "sym": rng.choice(["auto", "caller", "same"]), "opts": dyn.gen_opts(rng)}
@@ -567,7 +584,7 @@ def generate(prop: str, run_seed: int, tier: str = "quick") -> dict:
         ops.append(compile_op())  # never initialised
     for _ in range(n):
         r = rng.random()
-        refs_now = [x for x in used if x[0] in "lo"]
+        refs_now = [x for x in used if x[0] in "lo" or (x[0] == "d" and U["dests"][int(x[1:])]["cls"] == "CountingDestination")]
         if r < 0.3:
             ops.append(step_op())
         elif r < 0.55:
@@ -589,6 +606,14 @@ def generate(prop: str, run_seed: int, tier: str = "quick") -> dict:
     # quiescent phase: one complete step, then compile (clean state: twin comparison)
     ops.append(step_op(allow_fault=False))
     ops.append(compile_op())
+    counting = sorted(x for x in used if x[0] == "d" and U["dests"][int(x[1:])]["cls"] == "CountingDestination")
+    if counting:
+        # the caller completes the step itself for its own stateful destinations, then compiles
+        last = ops[-2]
+        last.pop("symT", None)
+        for x in counting:
+            ops.append({"op": "elem_step", "el": x, "opts": dict(last["opts"])})
+        ops.append(compile_op())
     return {"prop": prop, "run_seed": run_seed, "universe": U, "cfg": cfg, "ops": ops}
 
 
@@ -615,6 +640,9 @@ TIERS = {
         "thorough": {"runs": 90000, "selftest": 48, "chunk": 400, "wall_cap": 3300, "run_timeout": 120,
                      "expect_probes": ["interrupt", "add_after_step", "compile_returned", "compile_returned_clean_twin_equal",
                                        "compile_returned_fresh_compiler_equal",
+                                       "compile_returned:with-caller-stepped-stateful-destination",
+                                       "compile_raised_expected:stateful-destination-not-stepped",
+                                       "compile_refused:symbolic-T-by-keyword-undeclared",
                                        "compile_raised_expected:uninitialised", "compile_raised_expected:unstepped",
                                        "compile_raised_expected:reinitialised-after-step", "interrupt_phase:initialisation",
                                        "interrupt_phase:dynamics"]},
